@@ -408,6 +408,11 @@ func decodeKey(seq ansi.Sequence) Key {
 				}
 			}
 		}
+		if key.Keycode == 0x08 {
+			// Backspace reported with the BS code point (xterm with
+			// backarrowKey): the same key as the C0 byte
+			key.Keycode = KeyBackspace
+		}
 	}
 
 	// Remove caps and num, if all we have left is shift and no text was
